@@ -4,11 +4,11 @@ from ..runner import run_check
 
 
 def run(tier, seed, replay=None):
-    parts = [EventPart("evt", report_crashes=True, src_file="evt_tv.cpp", faults_quick=0, faults_thorough=100)]
+    parts = [EventPart("evt", report_crashes=True, src_file="evt_tv.cpp", faults_quick=100, faults_thorough=100)]
     return run_check(
         "C02", tier, seed, ["UnifexModel.Props.C02"], parts,
         rule="generated sender expressions + event scripts (see C05) on the REAL library, with a TRACKED value type travelling through the tree (constructions/destructions counted, "
-             "live count must return to zero after each case), built with ASan+UBSan and an allocation-balance monitor per case; FAULT INJECTION (thorough tier only): for a fixed, seed-independent corpus of 100 generated cases "
+             "live count must return to zero after each case), built with ASan+UBSan and an allocation-balance monitor per case; FAULT INJECTION (both tiers): for a fixed, seed-independent corpus of 100 generated cases "
              "every single throw point k = 1..min(moves,10) is tried (the k-th move of a tracked value throws) and the monitors must stay silent: exactly one root completion, no leak, no sanitizer abort "
              "(operator new/delete counted: every case must end with zero live allocations); any sanitizer abort (use-after-free, double free, "
              "uninitialised-pointer dereference) is reported with the generated expression as replay; traces are compared with the Lean calculus",
